@@ -99,6 +99,11 @@ Definition enc_list (enc : val -> res (list tag)) : list val -> res (list tag) :
   end.
 
 (* one element of Sequence.encode *)
+Definition enc_wrapped (enc : ty -> val -> res (list tag)) (t : ty) (ctx : option N) (v : val) : res (list tag) :=
+  do b <- enc t v; Ok (wrap ctx b).
+Definition enc_atomv (ctx : option N) (v : val) : res (list tag) :=
+  match v with VAtom x => enc_leaf ctx x | _ => Err TypeErr end.
+
 Definition enc_el (enc : ty -> val -> res (list tag)) (e : elem) (f : option val) : res (list tag) :=
   match e with
   | El t ctx opt =>
@@ -106,9 +111,9 @@ Definition enc_el (enc : ty -> val -> res (list tag)) (e : elem) (f : option val
     | None => if opt then Ok [] else Err MissingRequired
     | Some v =>
       match t with
-      | TSeqOf _ => match v with VList _ => do b <- enc t v; Ok (wrap ctx b) | _ => Err TypeErr end
-      | TAtom _ | TAnyAtomic => match v with VAtom x => enc_leaf ctx x | _ => Err TypeErr end
-      | _ => do b <- enc t v; Ok (wrap ctx b)
+      | TSeqOf _ => match v with VList _ => enc_wrapped enc t ctx v | _ => Err TypeErr end
+      | TAtom _ | TAnyAtomic => enc_atomv ctx v
+      | _ => enc_wrapped enc t ctx v
       end
     end
   end.
@@ -126,8 +131,8 @@ Definition enc_alt (enc : ty -> val -> res (list tag)) (e : elem) (v : val) : re
   match e with
   | El t ctx _ =>
     match t with
-    | TAtom _ | TAnyAtomic => match v with VAtom x => enc_leaf ctx x | _ => Err TypeErr end
-    | _ => do b <- enc t v; Ok (wrap ctx b)
+    | TAtom _ | TAnyAtomic => enc_atomv ctx v
+    | _ => enc_wrapped enc t ctx v
     end
   end.
 
@@ -197,72 +202,88 @@ Definition catchable (e : err) : bool :=
   match e with DecodingError | InvalidTag => true | _ => false end.
 
 (* one element of Sequence.decode *)
+(* no more tags, or a closing tag: omitted optional / empty list (fix) / missing *)
+Definition dec_el_end (t : ty) (opt : bool) (ts : list tag) : res (option val * list tag) :=
+  if opt then Ok (None, ts)
+  else if is_list t then Ok (Some (VList []), ts)
+  else Err MissingRequired.
+
+(* element.klass in _sequence_of_classes *)
+Definition dec_el_list (dec : ty -> list tag -> dres) (t : ty) (ctx : option N) (opt : bool)
+           (x : tag) (rest : list tag) : res (option val * list tag) :=
+  match ctx with
+  | Some c =>
+      if (cls x =? 2) && (num x =? c) then
+        do (v, ts1) <- dec t rest;
+        match ts1 with
+        | [] => Err AttrErr                      (* taglist.Pop() is None *)
+        | y :: ts2 => if is_closing c y then Ok (Some v, ts2) else Err InvalidTag
+        end
+      else if opt then Ok (Some (VList []), x :: rest)
+      else Err MissingRequired
+  | None => do (v, ts1) <- dec t (x :: rest); Ok (Some v, ts1)
+  end.
+
+(* issubclass(element.klass, AnyAtomic) *)
+Definition dec_el_anyatomic (ctx : option N) (opt : bool) (x : tag) (rest : list tag)
+  : res (option val * list tag) :=
+  match ctx with
+  | Some _ => Err InvalidTag
+  | None =>
+      if cls x =? 0 then do o <- anyatomic_obj x; Ok (o, rest)
+      else if opt then Ok (None, x :: rest)
+      else Err InvalidParameterDatatype
+  end.
+
+(* issubclass(element.klass, Atomic) *)
+Definition dec_el_atom (k : N) (ctx : option N) (opt : bool) (x : tag) (rest : list tag)
+  : res (option val * list tag) :=
+  match ctx with
+  | Some c =>
+      if (cls x =? 1) && (num x =? c) then
+        do x' <- context_to_app k x; do _ <- atom_check k x'; Ok (Some (VAtom x'), rest)
+      else if opt then Ok (None, x :: rest)
+      else Err InvalidTag
+  | None =>
+      if (cls x =? 0) && (num x =? k) then
+        do _ <- atom_check k x; Ok (Some (VAtom x), rest)
+      else if opt then Ok (None, x :: rest)
+      else Err InvalidParameterDatatype
+  end.
+
+(* some kind of structure *)
+Definition dec_el_struct (dec : ty -> list tag -> dres) (t : ty) (ctx : option N) (opt : bool)
+           (x : tag) (rest : list tag) : res (option val * list tag) :=
+  match ctx with
+  | Some c =>
+      if (cls x =? 2) && (num x =? c) then
+        do (v, ts1) <- dec t rest;
+        match ts1 with
+        | [] => Err InvalidTag
+        | y :: ts2 => if is_closing c y then Ok (Some v, ts2) else Err InvalidTag
+        end
+      else if opt then Ok (None, x :: rest)
+      else Err InvalidTag
+  | None =>
+      match dec t (x :: rest) with
+      | Ok (v, ts1) => Ok (Some v, ts1)
+      | Err er => if opt && catchable er then Ok (None, x :: rest) else Err er
+      end
+  end.
+
 Definition dec_el (dec : ty -> list tag -> dres) (e : elem) (ts : list tag) : res (option val * list tag) :=
   match e with
   | El t ctx opt =>
     match ts with
-    | [] =>
-        if opt then Ok (None, ts)
-        else if is_list t then Ok (Some (VList []), ts)
-        else Err MissingRequired
+    | [] => dec_el_end t opt ts
     | x :: rest =>
-      if cls x =? 3 then
-        (if opt then Ok (None, ts)
-         else if is_list t then Ok (Some (VList []), ts)       (* fix: empty required list before a closing tag *)
-         else Err MissingRequired)
+      if cls x =? 3 then dec_el_end t opt ts
       else
       match t with
-      | TSeqOf _ =>
-          match ctx with
-          | Some c =>
-              if (cls x =? 2) && (num x =? c) then
-                do (v, ts1) <- dec t rest;
-                match ts1 with
-                | [] => Err AttrErr                      (* taglist.Pop() is None *)
-                | y :: ts2 => if is_closing c y then Ok (Some v, ts2) else Err InvalidTag
-                end
-              else if opt then Ok (Some (VList []), ts)
-              else Err MissingRequired
-          | None => do (v, ts1) <- dec t ts; Ok (Some v, ts1)
-          end
-      | TAnyAtomic =>
-          match ctx with
-          | Some _ => Err InvalidTag
-          | None =>
-              if cls x =? 0 then do o <- anyatomic_obj x; Ok (o, rest)
-              else if opt then Ok (None, ts)
-              else Err InvalidParameterDatatype
-          end
-      | TAtom k =>
-          match ctx with
-          | Some c =>
-              if (cls x =? 1) && (num x =? c) then
-                do x' <- context_to_app k x; do _ <- atom_check k x'; Ok (Some (VAtom x'), rest)
-              else if opt then Ok (None, ts)
-              else Err InvalidTag
-          | None =>
-              if (cls x =? 0) && (num x =? k) then
-                do _ <- atom_check k x; Ok (Some (VAtom x), rest)
-              else if opt then Ok (None, ts)
-              else Err InvalidParameterDatatype
-          end
-      | _ =>
-          match ctx with
-          | Some c =>
-              if (cls x =? 2) && (num x =? c) then
-                do (v, ts1) <- dec t rest;
-                match ts1 with
-                | [] => Err InvalidTag
-                | y :: ts2 => if is_closing c y then Ok (Some v, ts2) else Err InvalidTag
-                end
-              else if opt then Ok (None, ts)
-              else Err InvalidTag
-          | None =>
-              match dec t ts with
-              | Ok (v, ts1) => Ok (Some v, ts1)
-              | Err er => if opt && catchable er then Ok (None, ts) else Err er
-              end
-          end
+      | TSeqOf _ => dec_el_list dec t ctx opt x rest
+      | TAnyAtomic => dec_el_anyatomic ctx opt x rest
+      | TAtom k => dec_el_atom k ctx opt x rest
+      | _ => dec_el_struct dec t ctx opt x rest
       end
     end
   end.
@@ -274,41 +295,48 @@ Definition dec_els (dec : ty -> list tag -> dres) : list elem -> list tag -> res
   | e :: r => do (f, ts1) <- dec_el dec e ts; do (fs, ts2) <- go r ts1; Ok (f :: fs, ts2)
   end.
 
-(* the alternatives of Choice.decode, tried in order; x = the tag peeked, rest = what follows it *)
+(* the alternatives of Choice.decode, tried in order; x = the tag peeked, rest = what follows it;
+   next = what trying the remaining alternatives gives *)
+Definition dec_alt_atom (k : N) (ctx : option N) (i : nat) (x : tag) (rest : list tag) (next : dres) : dres :=
+  match ctx with
+  | Some c =>
+      if (cls x =? 1) && (num x =? c) then
+        do x' <- context_to_app k x; do _ <- atom_check k x'; Ok (VChoice i (VAtom x'), rest)
+      else next
+  | None =>
+      if (cls x =? 0) && (num x =? k) then
+        do _ <- atom_check k x; Ok (VChoice i (VAtom x), rest)
+      else next
+  end.
+
+(* SequenceOf alternative (after the fix) and constructed alternative: same shape *)
+Definition dec_alt_struct (dec : ty -> list tag -> dres) (t : ty) (ctx : option N) (i : nat)
+           (x : tag) (rest : list tag) (next : dres) : dres :=
+  match ctx with
+  | None => Err RuntimeErr                         (* NotImplementedError *)
+  | Some c =>
+      if (cls x =? 2) && (num x =? c) then
+        do (v, ts1) <- dec t rest;
+        match ts1 with
+        | [] => Err AttrErr
+        | y :: ts2 => if is_closing c y then Ok (VChoice i v, ts2) else Err InvalidTag
+        end
+      else next
+  end.
+
 Definition dec_alts (dec : ty -> list tag -> dres) : list elem -> nat -> tag -> list tag -> dres :=
   fix dec_alts_go (alts : list elem) (i : nat) (x : tag) (rest : list tag) {struct alts} : dres :=
   match alts with
   | [] => Err AttrErr
   | El t ctx _ :: more =>
     match t with
-    | TAtom k =>
-        match ctx with
-        | Some c =>
-            if (cls x =? 1) && (num x =? c) then
-              do x' <- context_to_app k x; do _ <- atom_check k x'; Ok (VChoice i (VAtom x'), rest)
-            else dec_alts_go more (S i) x rest
-        | None =>
-            if (cls x =? 0) && (num x =? k) then
-              do _ <- atom_check k x; Ok (VChoice i (VAtom x), rest)
-            else dec_alts_go more (S i) x rest
-        end
+    | TAtom k => dec_alt_atom k ctx i x rest (dec_alts_go more (S i) x rest)
     | TAnyAtomic =>         (* the translator refuses AnyAtomic alternatives; _app_tag is None *)
         match ctx with
         | Some _ => Err OtherErr
         | None => dec_alts_go more (S i) x rest
         end
-    | _ =>
-        match ctx with
-        | None => Err RuntimeErr                         (* NotImplementedError *)
-        | Some c =>
-            if (cls x =? 2) && (num x =? c) then
-              do (v, ts1) <- dec t rest;
-              match ts1 with
-              | [] => Err AttrErr
-              | y :: ts2 => if is_closing c y then Ok (VChoice i v, ts2) else Err InvalidTag
-              end
-            else dec_alts_go more (S i) x rest
-        end
+    | _ => dec_alt_struct dec t ctx i x rest (dec_alts_go more (S i) x rest)
     end
   end.
 
